@@ -97,10 +97,11 @@ def pipeline_whole(c, facts, rule='C07.R22'):
     carries kind constraints of its own - and makes the verdict depend on the presence of an unrelated declaration."""
     R = c.rule(rule, 'PIPELINE-WHOLE: every successful return of compile() has passed resolve, tag, constrain, unify, substitute, cycles_check and type_check')
     import pathrules as P
-    fn = facts.normalised(c.anchor(R, 'oal_compiler::compile::compile'))
+    plain = c.anchor(R, 'oal_compiler::compile::compile')
+    fn = facts.normalised(plain)
     n = 0
     for ph in PIPELINE:
-        sites = {b for b, t in P.call_blocks(fn, ph)}
+        sites = {b for b, t in P.call_blocks(fn, ph)} | P.chained_sites(facts, plain, fn, ph)
         n += 1
         if not sites:
             c.bad(R, 'phase-missing:' + ph.split('::')[-1], 'compile() no longer calls %s' % ph)
